@@ -41,6 +41,8 @@ def tree_spec(draw, git=None, max_nodes=22):
         d = f"{parent}/{name}" if parent else name
         if d not in dirs and d not in nodes:
             dirs.append(d)
+            if name == "subprojects" and draw(st.booleans()):
+                dirs.append(d + "/" + draw(st.sampled_from(["libfoo", "sub", "src"])))
     lic_stems = set()
     for _ in range(n):
         parent = draw(st.sampled_from(dirs))
@@ -69,6 +71,10 @@ def tree_spec(draw, git=None, max_nodes=22):
         if kind == "symlink" and path.split("/")[0] == "LICENSES":
             # glob('LICENSES/**') follows symlinks: a link to a directory yields
             # the same licence text twice and aborts the tool (not C03's subject)
+            kind = "text"
+        if kind == "symlink" and name.endswith(".license"):
+            # a symlinked .license sibling is followed by annotate (C15's subject) and
+            # confuses the file <-> sibling mapping of this check
             kind = "text"
         if name == "REUSE.toml" and kind in ("text", "binary"):
             nodes[path] = ("text", b"version = 1\n")
@@ -119,7 +125,8 @@ def tree_spec(draw, git=None, max_nodes=22):
         tracked = draw(st.lists(st.sampled_from(files), max_size=6, unique=True))
         forced = draw(st.lists(st.sampled_from(files), max_size=2, unique=True))
         submods = []
-        cand = [d for d in alldirs if "/" not in d and d not in ("LICENSES", ".reuse", ".hg", ".sl", "subprojects")
+        cand = [d for d in alldirs if d.count("/") <= 1 and d.split("/")[0] not in ("LICENSES", ".reuse", ".hg", ".sl") and d != "subprojects"
+                and not any(part in (".hg", ".sl", "LICENSES", ".reuse") for part in d.split("/"))
                 and any(p.startswith(d + "/") and v[0] in ("text", "binary") for p, v in nodes.items())]
         if cand and draw(st.integers(0, 2)) == 0:
             submods.append(draw(st.sampled_from(cand)))
